@@ -24,6 +24,33 @@ CHECKS = {
     ),
 }
 
+CHECKS["C18"] = dict(
+    technique="symbolic execution of find_* (own path engine over z3 and CrossHair, cross-validated), all integer lists up to the length bound",
+    text="For every sorted list up to length 7 (thorough 9) over ALL integers (stronger than the 5-value domain of the property) and "
+    "every integer probe, each helper's return value equals the documented boundary position; decided per list length by "
+    "exhausting the decision tree (lean engine) and independently by CrossHair ('Confirmed over all paths'); thorough adds "
+    "List[float] under CrossHair's real-valued float model.",
+    design_ref="DESIGN.md 4 C18",
+    note="trusted: z3, vf.lpe, CrossHair; assumes sorted input; longer lists and NaN are outside the claim",
+)
+
+CHECKS["C09"] = dict(
+    technique="bounded symbolic execution of query construction and evaluation (own path engine over z3; CrossHair for symbolic strings) against the documented meaning",
+    text="Every vocabulary leaf and every compound to depth 2 (thorough: depth 3) is built with the real DSL and evaluated on one "
+    "symbolic point (time and field value unbounded ints, operators and right-hand sides symbolic, tag/measurement values from "
+    "finite alphabets incl. missing/None/empty); asserted on every path: no exception, value == documented meaning, ~/&/| == "
+    "NOT/AND/OR of the operands' own results. CrossHair repeats the tag/measurement comparisons and regex leaves with arbitrary "
+    "strings (length <= 4 / <= 2).",
+    design_ref="DESIGN.md 4 C09",
+)
+CHECKS["C17"] = dict(
+    technique="bounded symbolic execution of query __eq__/__hash__/__call__ for all shape pairs (own path engine over z3; CrossHair for string right-hand sides)",
+    text="For every ordered pair of the ~130 query shapes up to depth 2 (right-hand ints symbolic, operators symbolic in the same-kind "
+    "family, regex flags from {0,I,S}) and one symbolic point: q1 == q2 implies equal evaluation and equal hash; & and | commute "
+    "for simple and compound operands; queries containing map() are unequal to everything. Decided by exhausting all paths.",
+    design_ref="DESIGN.md 4 C17",
+)
+
 NOT_YET = {}
 
 
